@@ -4,6 +4,7 @@ Model: `IrVerif/Model/Kernel.lean`; invariant `WF` (six clauses, `IrVerif/Lemmas
 `KernelOps.lean`) and the per-primitive / per-operation lemmas: `IrVerif/Lemmas/Kernel*.lean`.
 -/
 import IrVerif.Lemmas.KernelOps
+import IrVerif.Lemmas.KernelSeq
 namespace IrVerif.Kernel
 
 /-- the empty world is well formed -/
@@ -87,6 +88,63 @@ theorem C01_roots (w : World) (h : WF w) (v : Nat)
 theorem C01_counters (w : World) (h : WF w) (g v : Nat) :
     lget (w.gr g).inCnt v = (w.gr g).inputs.count v ∧ lget (w.gr g).outCnt v = (w.gr g).outputs.count v :=
   ⟨h.own.cnt .inp g v, h.own.cnt .out g v⟩
+
+/-! ### the node sequence at pointer level (tie to C11)
+
+The kernel keeps a graph's node sequence as a duplicate-free list and edits it with `linkAfter` /
+`erase` (`seqApply` = these edits as a function of the operation).  `Model/LinkedSet.lean` is the
+pointer-faithful model of `_linked_list.py`; C11 proves that it refines an abstract list machine. -/
+
+/-- **C01_node_sequence_refined**: for every pointer-level state satisfying C11's representation
+invariant and every node-sequence operation (`append`, `extend`, `insert_after`, `insert_before`,
+`remove`, with arbitrary arguments — present, absent, repeated, the anchor itself: "already
+present ⇒ moved", "same as the anchor ⇒ no-op"), the sequence read off the pointer structure after
+the operation is the kernel's list function applied to the sequence read off before, and the
+operation raises exactly when the kernel's function rejects. -/
+theorem C01_node_sequence_refined {s : LinkedSet.LSet} (h : LinkedSet.WF s) (op : LinkedSet.Op) :
+    LinkedSet.toList (LinkedSet.apply s op).1 = (seqApply (LinkedSet.toList s) op).1 ∧
+    (LinkedSet.apply s op).2 = (seqApply (LinkedSet.toList s) op).2 := by
+  obtain ⟨h1, h2⟩ := LinkedSet.C11_rep_toList h op
+  obtain ⟨e1, e2⟩ := seqApply_eq_spec (LinkedSet.toList s) (toList_nodup h) op
+  exact ⟨h1.trans e1, h2.trans e2⟩
+
+/-- the same along any history of node-sequence operations, starting from the empty container -/
+theorem C01_node_sequence_history (ops : List LinkedSet.Op) :
+    LinkedSet.toList (ops.foldl (fun s o => (LinkedSet.apply s o).1) LinkedSet.empty) =
+      ops.foldl (fun l o => (seqApply l o).1) [] := by
+  suffices ∀ (s : LinkedSet.LSet) (l : List Nat), LinkedSet.WF s → LinkedSet.toList s = l →
+      LinkedSet.toList (ops.foldl (fun s o => (LinkedSet.apply s o).1) s) =
+        ops.foldl (fun l o => (seqApply l o).1) l from
+    this _ _ LinkedSet.C11_rep_empty.1 LinkedSet.C11_rep_empty.2
+  induction ops with
+  | nil => intro s l _ e; exact e
+  | cons o ops ih =>
+    intro s l hs e
+    subst e
+    exact ih _ _ (LinkedSet.C11_rep_step hs o) (C01_node_sequence_refined hs o).1
+
+/-- **C01_graph_calls_use_seq**: `seqApply` is what the kernel's graph calls do to
+`(w.gr g).nodes` whenever they are not rejected (names are assigned on the way, which does not touch
+the sequence) — so `I_node`, proved of the abstract list, holds of the pointer-level container that
+simulates it step by step. -/
+theorem C01_graph_calls_use_seq (w : World) (hw : WF w) (g : Nat) :
+    (∀ n, nodeAddable w g n = true →
+      ((graphAppend w g n).1.gr g).nodes = (seqApply (w.gr g).nodes (.append n)).1) ∧
+    (∀ ns, ns.all (nodeAddable w g) = true →
+      ((graphExtend w g ns).1.gr g).nodes = (seqApply (w.gr g).nodes (.extend ns)).1) ∧
+    (∀ a ns, (w.node a).graph = some g → ns.all (nodeAddable w g) = true →
+      ((graphInsertAfter w g a ns).1.gr g).nodes = (seqApply (w.gr g).nodes (.insertAfter a ns)).1) ∧
+    (∀ a ns, (w.node a).graph = some g → ns.all (nodeAddable w g) = true →
+      ((graphInsertBefore w g a ns).1.gr g).nodes = (seqApply (w.gr g).nodes (.insertBefore a ns)).1) ∧
+    (∀ n, (w.node n).graph = some g →
+      ((graphRemove w g [n] false).1.gr g).nodes = (seqApply (w.gr g).nodes (.remove n)).1) :=
+  ⟨fun n h => nodes_graphAppend w g n h, fun ns h => nodes_graphExtend w g ns h,
+   fun a ns ha h => nodes_graphInsertAfter w hw.node g a ns ha h,
+   fun a ns ha h => nodes_graphInsertBefore w hw.node g a ns ha h,
+   fun n h => nodes_graphRemove_one w hw.node g n h⟩
+
+example : (seqApply [1, 2, 3] (.insertBefore 2 [3, 2, 1])).1 = [3, 2, 1] := by decide
+example : (seqApply [1, 2, 3] (.append 1)).1 = [2, 3, 1] ∧ (seqApply [1, 2, 3] (.remove 7)).2 = false := by decide
 
 /-! ### non-vacuity: a reachable two-graph world with a value that is input + output + initializer
 and listed twice -/
